@@ -93,6 +93,11 @@ class Reader:
         self.closed = False
 
     def _out(self, line):
+        if self.mf.kind == "bgzf" and self.binary:
+            # pysam's BGZFile.readline() hands out the line WITHOUT its terminator (observed on the real library)
+            line = line.rstrip("\n") if not isinstance(line, FieldStr) else line.rstrip("\n")
+            if isinstance(line, builtins.str) and line == "":
+                line = "\n"  # an empty line must not look like end of file
         if not self.binary:
             return line
         if isinstance(line, FieldStr):
@@ -177,6 +182,19 @@ class BinReader:
         return False
 
 
+WRITE_LEN = [None]
+
+
+class SymLen:
+    """return value of write() for text that contains renderings of symbolic integers: its length is unknown; any use of it
+    (offset arithmetic instead of tell()) is reported, ignoring it is fine"""
+
+    def _bad(self, *a):
+        raise HarnessFailure("the number of characters returned by write() is used for arithmetic (offsets must come from tell())")
+
+    __add__ = __radd__ = __iadd__ = __sub__ = __rsub__ = __int__ = __index__ = __lt__ = __gt__ = __le__ = __ge__ = _bad
+
+
 class Writer:
     def __init__(self, e, path, binary, append_to=None, kind="text"):
         self.e = e
@@ -209,7 +227,13 @@ class Writer:
                 raise TypeError("write() argument must be str, not %s" % type(s).__name__)
         self.chunks.append(s)
         self.nwrites += 1
-        return 0
+        # number of characters / bytes written, as the real handles report it
+        if isinstance(s, FieldStr):
+            raise_len = WRITE_LEN[0]
+            if raise_len is None:
+                return SymLen()
+            return raise_len
+        return len(s)
 
     def tell(self):
         ck = self.e.writer_cookies.get(self.path)
